@@ -107,6 +107,14 @@ func (in *Interp) callFn(fn *ssa.Function, args []Value, env []Value) Value {
 	if h, ok := intrinsics[name]; ok {
 		return h(in, fn, args)
 	}
+	if r, ok := in.Ex.Redirects[name]; ok {
+		rf := in.P.Funcs[r]
+		if rf == nil {
+			in.fail("redirect target %s not found", r)
+		}
+		in.stubs["summary: "+shortName(name)+" replaced by "+shortName(r)+" (lemma-checked)"] = true
+		return in.callFunction(rf, args, nil)
+	}
 	if stub, ok := in.Ex.Stubs[name]; ok {
 		in.stubs[name] = true
 		return stub(in, fn, args)
